@@ -102,8 +102,37 @@ Theorem tonumpy_spec p s v :
 Proof.
 rewrite /tonumpy; case isc: (isconstant p) => //=.
 case E: (filter _ _) => [|t [|t' l]] // [<- <-]; split=> // i.
-by rewrite isconstant_absE // -big_filter E big_cons big_nil addr0.
+- by rewrite isconstant_absE // -big_filter E big_nil nth_nseq; case: ifP.
+- by rewrite isconstant_absE // -big_filter E big_cons big_nil addr0.
 Qed.
+
+(* totality: a well-formed constant array always converts (its rows are distinct and of one width: at most one of them
+   is the zero row) *)
+Lemma const_row_nseq (r : seq nat) : const_row r -> r = nseq (size r) 0%N.
+Proof.
+rewrite /const_row -all_predC => /allP h; apply: (@eq_from_nth _ 0%N); first by rewrite size_nseq.
+by move=> k lk; rewrite nth_nseq lk; have /= := h _ (mem_nth 0%N lk); rewrite negbK => /eqP.
+Qed.
+
+Theorem tonumpy_constant p : wfb p -> isconstant p -> exists v, tonumpy p = Ok (shape p, v).
+Proof.
+move=> wp isc; rewrite /tonumpy isc /=.
+case E: (filter _ _) => [|t [|t' l]]; [by eexists | by eexists | exfalso].
+have [srs rpos urs wid _] := wfbP wp.
+have sub : subseq [:: t.1, t'.1 & unzip1 l] (rows p).
+  have -> : [:: t.1, t'.1 & unzip1 l] = unzip1 [seq t <- terms p | const_row t.1] by rewrite E.
+  rewrite -[X in subseq _ X](@unzip1_zip _ _ (rows p) (cols p)) ?srs //.
+  by apply: map_subseq; exact: filter_subseq.
+have /= /andP[] := subseq_uniq sub urs; rewrite inE negb_or => /andP[/eqP ne _] _.
+have tin : t.1 \in rows p by apply: (mem_subseq sub); rewrite mem_head.
+have tin' : t'.1 \in rows p by apply: (mem_subseq sub); rewrite !inE eqxx orbT.
+have cin : t \in [seq t <- terms p | const_row t.1] by rewrite E mem_head.
+have cin' : t' \in [seq t <- terms p | const_row t.1] by rewrite E !inE eqxx orbT.
+move: cin cin'; rewrite !mem_filter => /andP[c1 _] /andP[c2 _].
+apply: ne; rewrite (const_row_nseq c1) (const_row_nseq c2).
+by rewrite (eqP (allP wid _ tin)) (eqP (allP wid _ tin')).
+Qed.
+
 
 Theorem tonumpy_nonconstant p : ~~ isconstant p -> tonumpy p = Err FeatureNotSupported.
 Proof. by rewrite /tonumpy => ->. Qed.
